@@ -537,6 +537,11 @@ def run_c13(chk, prog):
     chk.floor("C13.O1", "abstract vectors compared", total, 2 * 13 * 20)
     # "stored pages are always complete pages of the configured size": what Page::from_bytes accepts is part of the clause
     include_page_rules(chk, prog, "C13.page")
+    # "pages of the configured size": the size a sign derives from a configuration block is C19.O3 (every type's block gives
+    # exactly that type's dimensions); a leg of this property as well
+    import p_signtype
+    nd = chk.include("C13.dims", p_signtype.run_c19_tables, prog, keep=lambda r: r.startswith("C19.O3"))
+    chk.floor("C13.dims", "obligations on the size a sign derives from a configuration block (C19.O3)", nd, 11)
     chk.note_analysed("functions", [tab.fn["name"]] + sorted(tab.ev.stats["inlined"]))
     for r in tab.rows[:6]:
         chk.sample({"conditions": {k: sorted(map(str, v)) if isinstance(v, (set, frozenset)) else str(v) for k, v in r["feats"].items()}, "effect": {k: str(v) for k, v in eff_project(r["effect"]).items()} if "panic" not in r["effect"] else r["effect"]})
